@@ -117,7 +117,7 @@ CLAIMS["C19"] = (
 
 CLAIMS["C04"] = (
     "Rocq theorems over all object sets / route lists / minion lists (routes attached = referenced, existing, reference-checked routes; minions = stored minions of the host; each path served by exactly the least-claimant minion; composition a function of the object set) + the declarative composition evaluated in Rocq on the implementation's GetResources() after every event",
-    "Machine-checked proof (no axioms) that the route list of a VirtualServer is exactly the referenced, existing routes passing the per-reference check (whose meaning is proved), that the minions rendered with a master are exactly the stored minions of its host, that a minion's ValidPaths mark for a path is true iff it is the least claimant of that path among them (any number of minions and paths, K1), and that composition depends only on the current object set; only-the-owner-composes and the end-to-end connection to GetResources are decided by the declarative specification evaluated on the real resources of every generated history. One genuine defect (F44) repaired; F12 (route attached twice) is a known finding.",
+    "Machine-checked proof (no axioms) that the route list of a VirtualServer is exactly the referenced, existing routes passing the per-reference check (whose meaning is proved), that the minions rendered with a master are exactly the stored minions of its host, that a minion's ValidPaths mark for a path is true iff it is the least claimant of that path among them (any number of minions and paths, a minion may list a path any number of times; K1) and a minion that loses a path carries a child warning, and that composition depends only on the current object set; only-the-owner-composes and the end-to-end connection to GetResources are decided by the declarative specification evaluated on the real resources of every generated history. One genuine defect (F44) repaired; F12 (route attached twice) is a known finding.",
     ARB_NOTE + " The full VirtualServerRoute validator is an oracle; its per-reference part is modelled. Rendering projection: every active master is rendered through the real createMergeableIngresses + generateNginxCfgForMergeableIngresses and its (path, minion) locations are compared in Rocq with the declared ones. F12 and F44 repaired (C04_route_attached_once).", "DESIGN.md 7 C04")
 CLAIMS["C08"] = (
     "Rocq theorems over unbounded policy-reference lists and all dependency states of an executable model of generatePolicies / add*Config / getPolicies / policy inheritance / generateSSLConfig / addSSLConfig / Ingress JWT and "
@@ -133,8 +133,8 @@ CLAIMS["C16"] = (
     ARB_NOTE + " Also proved for every history: no report the controller derives names an object that is of a foreign class at that moment (C16_reports_never_name_foreign). Controller level (real LoadBalancerController.sync, production constructor, fake clientsets): recorded Events and status writes never name a foreign object; every event is offered to the real informer handler (a class change must be passed on); the real OnStartedLeading callback runs at the end of every history with Policies of own/foreign class present. F04 and F70 repaired. Not covered: the -weight-changes-dynamic-reload informer-side path.", "DESIGN.md 7 C16")
 
 CLAIMS["C05"] = (
-    'Rocq theorem over all histories: after every history the judge `truthful` (the function evaluated at run time on the implementation\'s reports) accepts the accumulated reports of every known Ingress, master, minion, VirtualServer, VirtualServerRoute and TransportServer, valid or invalid (C05_truthful_partial, one verdict for minions left open); the validation error of the processed object is reported in the step, for every event in every state; delta suppression sound + the same specification evaluated in Rocq at two levels: on the real change/problem lists, and on the Events recorded by the real LoadBalancerController.sync',
-    "Machine-checked proof (no axioms, ~2700 lines) that for EVERY history obeying what the API server and the validators guarantee (generation moves with the spec, UIDs not reused, a master has one host, a minion a path, a VirtualServer a host, a route a UID, passthrough TransportServers only valid when passthrough is on; cert-manager conversion off), after every event and for every object the cluster knows: applied (active resource, attached minion, attached route) => the most recent accumulated report is a success; not applied or invalid => it is a rejection, warning or problem - also across delete/re-create with a new UID, squashed batches, GlobalConfiguration events and problems that go and come back. Left open (partial): verdict 3 (an attached minion serving no path was told 'success' without the warning) and the cert-manager corner; both, and the tie of the model to the code, are decided on every run by the Rocq kernel evaluating the same judge on the implementation's own change/problem lists of every generated history, and again on the Events and status writes that the real controller records for the same histories.",
+    'Rocq theorem over all histories: after every history the judge `truthful` (the function evaluated at run time on the implementation\'s reports) accepts the accumulated reports of every known Ingress, master, minion, VirtualServer, VirtualServerRoute and TransportServer, valid or invalid (C05_truthful); the validation error of the processed object is reported in the step, for every event in every state; delta suppression sound + the same specification evaluated in Rocq at two levels: on the real change/problem lists, and on the Events recorded by the real LoadBalancerController.sync',
+    "Machine-checked proof (no axioms, ~2700 lines) that for EVERY history obeying what the API server and the validators guarantee (generation moves with the spec, UIDs not reused, a master has one host, a minion a path, a VirtualServer a host, a route a UID, passthrough TransportServers only valid when passthrough is on, a UID belongs to one name; cert-manager conversion off), after every event and for every object the cluster knows: applied (active resource, attached minion, attached route) => the most recent accumulated report is a success; not applied or invalid => it is a rejection, warning or problem - also across delete/re-create with a new UID, squashed batches, GlobalConfiguration events and problems that go and come back. An attached minion that serves none of its paths carries the warning in its success report (closed with the extra API-server guarantee that a UID belongs to one name). Left to run time: the cert-manager corner; it, and the tie of the model to the code, are decided on every run by the Rocq kernel evaluating the same judge on the implementation's own change/problem lists of every generated history, and again on the Events and status writes that the real controller records for the same histories.",
     ARB_NOTE + " Controller level: production constructor, fake clientsets, harness-filled informer stores, fake NGINX manager; status-subresource writes are recorded but only Events are judged. Reports are tied to object incarnations (a delete or a UID change forgets them); whether a minion serves a path is decided from the object set; every event is offered to the real informer handler (plain and tombstone deletes). F72 and F73 repaired. Converted cert-manager challenge Ingresses are excluded.", "DESIGN.md 7 C05")
 
 CLAIMS["C17"] = (
